@@ -103,7 +103,9 @@ EXPLANATION = (
     "a local whose reaching definition is the call) are decided per result and prune the caller's CFG. A caller that decodes into its own locals "
     "must keep a statement reading them reachable for every non-empty result, and no caller may handle a non-empty result exactly like a refusal "
     "(same reachable readers of the output objects, same returns) while another decoded result is handled differently; a condition that cannot be "
-    "decided keeps both ways, which can only hide a violation, never make one.")
+    "decided keeps both ways, which can only hide a violation, never make one. C20.R13 (list and channel description travel together): the "
+    "renderers are resolved from the call graph of gsm48_rr.c; in each of their callers every call that is handed the rendered local list with a "
+    "channel description must be reached (reaching definitions of list and length on the statement CFG) only by render calls for that description.")
 ASSUMPTIONS = [
     "clang 14 parses the sliced function exactly as the layer23 build would (prelude models only declarations: stdint.h, EINVAL sign, struct gsm_sysinfo_freq {uint8_t mask;}, FREQ_TYPE_* values and array extents read from sysinfo.h, LOGP reduced to the evaluation of its value arguments)",
     "int is 32 bit: no counter in the function exceeds 2040, so machine arithmetic coincides with integer arithmetic",
@@ -118,6 +120,7 @@ ASSUMPTIONS = [
     "C20.R8 (witness fold): the interpreter in this module implements the C semantics of the constructs it accepts (integer conversions and arithmetic wrap in the widths of the parse target, signed >> is arithmetic, pointers are (object, offset) pairs that never leave their object unnoticed, a scalar whose address is taken is a one-element object, an unset object holds an indeterminate value that may be copied but not compared, branched on or used as an index); LOGP evaluates its value arguments and does nothing else; agreement on the witnesses is evidence for a decoder whose shape the structural rules do not recognise, not a proof for all inputs (the evidence records the structural proof as open)",
     "C20.R11 (LV copies): every struct gsm48_rr_cd whose mob_alloc_lv is filled by a copy is rendered by gsm48_rr_render_ma afterwards (cd_now, cd_before, cd_after are), and the member does not already hold the bitmap that is copied; octet 0 of the source is the length of the LV that was received; nothing between a guard on that octet and the copy changes the source (callees, logging macros); a member reached through a synthesised inner struct (`rr->cd_now.mob_alloc_lv`) is the member of that name of struct gsm48_rr_cd",
     "C20.R12 (result use): the results the witness fold C20.R8 obtains (return value per refusal / empty / non-empty list) are the results the callers see (same definition of the decoder); a caller's condition over the result is evaluated in the integers after conversion to the type of the local that holds it, conditions compared after an unsigned conversion or mixed with other values are left undecided (both ways kept); a local list the decoder fills is handed on only by statements that name it",
+    "C20.R13 (pairing): a function of gsm48_rr.c that is handed the list and a struct gsm48_rr_cd * sends the list to L1 with the hopping parameters (MAIO, HSN) of that description (gsm48_rr_activate_channel, gsm48_rr_channel_after_time do); callees other than the renderers do not write the caller's list or length; different member paths of one pointer variable that is written once are different objects; the contents of a description are not changed between its render call and the consumer (not decided)",
     "C20.R7 (typed word model): integer widths are those of the parse target (char 8, short 16, int 32, long long and uint64_t 64 bit, long as uint64_t's typedef shows); signed integers are two's complement, conversion to a narrower signed type wraps, >> of a negative value is arithmetic and << of a signed value wraps into the sign bit (what gcc and clang define); a shift by a negative count or by a count >= the width of the promoted left operand is undefined (C11 6.5.7) and is reported, not evaluated",
 ]
 
@@ -4320,6 +4323,19 @@ class HeaderIndex:
                         with open(path, "r", encoding="utf-8", errors="surrogateescape") as f:
                             self.files.append((os.path.relpath(path, self.L.repo), f.read()))
 
+    def define(self, name):
+        """value of the object-like macro `name` when exactly one integer value is #defined for it in the headers"""
+        if self.files is None:
+            self._load()
+        vals = set()
+        for rel, raw in self.files:
+            if re.search(r"^[ \t]*#[ \t]*define[ \t]+%s\b" % re.escape(name), raw, re.M):
+                mac = read_defines(blank_strings(strip_comments(raw)))
+                if name in mac:
+                    self.L.unit(rel)
+                    vals.add(c_fold(mac[name], dict(mac)))
+        return vals.pop() if len(vals) == 1 else None
+
     def struct(self, name):
         """(relpath, members {name: (type, extent)}, ordered member names, macros of the header) | None"""
         if name in self.cache:
@@ -4399,8 +4415,12 @@ def synth_prelude(L, H, body, fname, mac_names, mac_lines):
     trees = {}
     for m in re.finditer(r"\bstruct\s+(\w+)", txt):
         trees.setdefault(m.group(1), {"kids": {}, "arrow": False, "array": False})
-    for m in re.finditer(r"\bstruct\s+(\w+)\s*\*?\s*(?:const\s+)?(\w+)\s*(?=[\[;,=)])", txt):
+    for m in re.finditer(r"\bstruct\s+(\w+)\b\s*\*?\s*(?:const\s+)?\b(\w+)\s*(?=[\[;,=)])", txt):
         _chain_tree(txt, m.group(2), trees[m.group(1)])
+    # further declarators of one declaration (`struct msgb *msg, *nmsg;`)
+    for m in re.finditer(r"\bstruct\s+(\w+)\b\s*\*?\s*\w+\s*(?:=[^;,(){}]*)?((?:,\s*\*?\s*\w+\s*(?:=[^;,(){}]*)?)+);", txt):
+        for d in re.finditer(r",\s*\*?\s*(\w+)", m.group(2)):
+            _chain_tree(txt, d.group(1), trees[m.group(1)])
     pre = ["#include <stdint.h>", "#include <stddef.h>", "#define LOGP(ss, level, fmt, args...) ((void)(0, ## args))"]
     pre += mac_lines
     real_used = {}
@@ -4413,7 +4433,7 @@ def synth_prelude(L, H, body, fname, mac_names, mac_lines):
         pre.append("struct %s { %s };" % (nm, " ".join(mem) if mem else "char vsa_opaque_;"))
     # callees and upper-case constants
     declared = set(C_KEYWORDS) | set(mac_names) | {"LOGP", fname}
-    funs, consts = [], []
+    funs, consts, labels = [], [], set(re.findall(r"\bcase\s+([A-Z][A-Z0-9_]*)\s*:", txt))
     for m in re.finditer(r"(?<![\w.>])([A-Za-z_]\w*)\b(\s*\()?", txt):
         nm = m.group(1)
         if nm in declared or txt[:m.start()].rstrip().endswith(("->", ".", "struct", "goto")):
@@ -4428,7 +4448,8 @@ def synth_prelude(L, H, body, fname, mac_names, mac_lines):
     # a callee whose result is the operand of a unary `*` yields a pointer (`*TLVP_VAL(&tp, IE)`): what it points to
     # stays opaque octets
     pre += [("const unsigned char *%s();" if _deref_callee(txt, f) else "int %s();") % f for f in funs]
-    pre += ["extern const int %s;" % c for c in consts]
+    lab = {c: H.define(c) for c in sorted(labels)}
+    pre += [("enum { %s = %d };" % (c, lab[c])) if lab.get(c) is not None else "extern const int %s;" % c for c in consts]
     return pre, real_used, funs
 
 
@@ -4440,6 +4461,20 @@ def _deref_callee(txt, f):
         if not prev or not (prev[-1].isalnum() or prev[-1] in "_)]") or re.search(r"\breturn$", prev):
             return True
     return False
+
+
+def file_scope_array(src, name):
+    """declaration of the file-scope array `name` of scalars / strings that the file defines with an initialiser list
+    (extent written or counted from the list), else None"""
+    clean = blank_strings(strip_comments(src))
+    m = re.search(r"^(?:static\s+)?((?:const\s+)?(?:%s)\s*\*?(?:\s*const\b)?)\s*%s\s*\[([^\]]*)\]\s*=\s*\{" % (
+        SCALAR.pattern, re.escape(name)), clean, re.M)
+    if not m or len(re.findall(r"^[^\s#].*\b%s\s*\[[^\]]*\]\s*=" % re.escape(name), clean, re.M)) != 1:
+        return None
+    o = m.end() - 1
+    ext = c_fold(m.group(m.lastindex), read_defines(clean)) if m.group(m.lastindex).strip() else \
+        len([a for a in split_args(clean[o + 1:match_close(clean, o, "{", "}")]) if a.strip()])
+    return "extern %s %s[%d];" % (" ".join(m.group(1).split()), name, ext) if ext else None
 
 
 def caller_slice(L, H, rel, fname, hdr_clean):
@@ -4469,7 +4504,8 @@ def caller_slice(L, H, rel, fname, hdr_clean):
                 for x in new:
                     if x not in opaque:
                         opaque.append(x)
-                        pre.append("extern struct vsa_opaque_object_ %s;" % x)
+                        pre.append("#define %s %d" % (x, x == "true") if x in ("true", "false") else
+                                   file_scope_array(src, x) or "extern struct vsa_opaque_object_ %s;" % x)
     finally:
         shutil.rmtree(tmp, ignore_errors=True)
     fd = tu.func(fname)
@@ -5662,6 +5698,299 @@ def r12_site(L, R, fm, rel, fname, n, c, outs, how):
          bad is None, fm.line(c))
 
 
+# ========================================== callers: the list handed on belongs to the description handed on
+
+def _callee(c):
+    f = strip(kids(c)[0], casts=True)
+    return f.get("referencedDecl", {}).get("name") if kind(f) == "DeclRefExpr" else None
+
+
+def _ref_name(e):
+    e = strip(e, casts=True)
+    return e.get("referencedDecl", {}).get("name") if e is not None and kind(e) == "DeclRefExpr" else None
+
+
+def _norm_type(t):
+    t = re.sub(r"\bconst\b|\bregister\b", " ", t)
+    return re.sub(r"\s*\*\s*", "*", " ".join(t.split()))
+
+
+def renderers_of(L, H, hdr, cf):
+    """Functions of gsm48_rr.c that render a hopping list for their callers: they call the decoder with their own
+    parameters as output list / output length and read the bitmap from one structure parameter (the channel description).
+    -> {name: {"cd": index, "buf": index, "len": index, "cdtype": text}}; a function that only forwards three such
+    parameters to a renderer is a renderer itself (fixpoint over the resolved calls)."""
+    out = {}
+
+    def own(fm, e):
+        v = _ref_name(e)
+        return fm.params.index(v) if v in fm.params and fm.never_written(v) and v not in fm.dups else None
+    work = [(FN, {"cd": None, "buf": 3, "len": 4})]
+    while work:
+        callee, sig = work.pop()
+        for fname in sorted({fi[0] for (fi, pos, args) in cf.calls(callee)}):
+            if fname in out or fname == callee:
+                continue
+            fm = slice_of(L, H, cf.rel, fname, hdr)
+            for (n, c) in fm.calls:
+                if _callee(c) != callee:
+                    continue
+                args = kids(c)[1:]
+                if len(args) <= max(sig["buf"], sig["len"]):
+                    raise AnalysisError("call of %s() in %s() with %d arguments" % (callee, fname, len(args)))
+                pb, pl = own(fm, args[sig["buf"]]), own(fm, args[sig["len"]])
+                if pb is None or pl is None:
+                    continue                # fills a buffer of its own: a caller, analysed as such
+                src = args[1] if sig["cd"] is None else args[sig["cd"]]
+                ps = sorted({fm.params.index(x.get("referencedDecl", {}).get("name")) for x in walk(src)
+                             if kind(x) == "DeclRefExpr" and x.get("referencedDecl", {}).get("name") in fm.params})
+                ps = [p for p in ps if "*" in fm.ptype.get(fm.params[p], "") and "struct" in fm.ptype.get(fm.params[p], "")]
+                if len(ps) != 1 or not fm.never_written(fm.params[ps[0]]):
+                    raise AnalysisError("%s() renders a hopping list for its callers, but the channel description it reads the bitmap "
+                                        "from (`%s`) is not one structure parameter" % (fname, ctext(src)[:50]))
+                rec = {"cd": ps[0], "buf": pb, "len": pl, "cdtype": _norm_type(fm.ptype[fm.params[ps[0]]])}
+                if fname in out and out[fname] != rec:
+                    raise AnalysisError("%s() renders hopping lists from different parameters" % fname)
+                out[fname] = rec
+            if fname in out:
+                work.append((fname, out[fname]))
+    return out
+
+
+def obj_path(fm, e):
+    """(base variable, member path) of an lvalue that names an object inside what one stable variable designates
+    (`rr->cd_now`, `rr->vgcs.cd_group`, `*cd`): the only dereference is the one of the base variable, and that variable
+    has one value for the whole function (parameter never written / local written once, address not taken)."""
+    path = []
+    e = strip(e, casts=True)
+    deref = False
+    while kind(e) == "MemberExpr":
+        if deref:
+            raise AnalysisError("channel description `%s` is reached through a pointer stored in memory (not followed)" % ctext(e)[:50])
+        path.append(e.get("name"))
+        deref = bool(e.get("isArrow"))
+        e = strip(kids(e)[0], casts=True)
+    if kind(e) == "UnaryOperator" and e.get("opcode") == "*" and not deref:
+        deref = True
+        e = strip(kids(e)[0], casts=True)
+    v = _ref_name(e)
+    if v is None:
+        raise AnalysisError("channel description `%s` is not a member path of a variable" % ctext(e)[:50])
+    stable = v not in fm.dups and v not in fm.addr and (
+        (v in fm.params and not fm.writes.get(v)) or
+        (v in fm.locals and len(fm.writes.get(v, [])) == 1 and fm.writes[v][0].how in ("init", "assign")))
+    if not stable:
+        raise AnalysisError("channel description is named through `%s`, which does not keep one value in the function" % v)
+    return (("*" if deref else "") + v, tuple(reversed(path)))
+
+
+def desc_object(fm, e, at, depth=0):
+    """the object a channel-description pointer argument designates at CFG node `at`"""
+    e = strip(e, casts=True)
+    if kind(e) == "UnaryOperator" and e.get("opcode") == "&":
+        return obj_path(fm, kids(e)[0])
+    v = _ref_name(e)
+    if v is not None and v in fm.params and fm.never_written(v) and v not in fm.dups:
+        return ("*" + v, ())
+    if v is not None and v in fm.locals and v not in fm.addr and v not in fm.dups and depth < 3:
+        defs = fm.reaching_defs(v, at)
+        if len(defs) == 1 and defs[0] != "undef" and defs[0].how in ("init", "assign") and defs[0].val is not None:
+            return desc_object(fm, defs[0].val, defs[0].node, depth + 1)
+    raise AnalysisError("channel description argument `%s` cannot be resolved to one object" % ctext(e)[:50])
+
+
+def fmt_obj(o):
+    base, path = o
+    if base.startswith("*"):
+        return base[1:] + "->" + ".".join(path) if path else base
+    return ".".join((base,) + path)
+
+
+def arg_objects(fm, e):
+    """objects named by the member reads inside an argument (`rr->cd_now.maio` names rr->cd_now.maio and rr->cd_now)"""
+    out = set()
+    for x in walk(e):
+        if kind(x) == "MemberExpr":
+            try:
+                b, p = obj_path(fm, x)
+            except AnalysisError:
+                continue
+            for k in range(1, len(p) + 1):
+                out.add((b, p[:k]))
+            if b.startswith("*"):
+                out.add((b, ()))
+    return out
+
+
+def r13_pairing(L, tier):
+    """C20.R13 -- caller half of the clause "the decoded hopping list contains exactly the cell-allocation channels whose
+    bit is set" (mechanism: callers feeding the hopping list to L1 on assignment / handover): the list a caller hands on
+    together with a channel description is the one decoded from THAT description's Mobile Allocation.  The renderers
+    are resolved from the call graph (functions of gsm48_rr.c that pass their own list / length parameters to the decoder
+    and read the bitmap from one structure parameter, and functions that forward such parameters).  In every function
+    that calls a renderer with a local list, each other call that is handed the list (or the length) is a consumer; the
+    channel description it is given is the argument at the position of its description-typed parameter(s) (signature in
+    gsm48_rr.c), else the descriptions whose members it is passed.  Reaching definitions on the statement CFG: every
+    render call into the list (and into the length) that reaches the consumer must have rendered the description the
+    consumer is given.  Two descriptions are different only when they are different member paths of the same stable
+    variable; anything else (possible aliases, an unrendered path, lists written by hand, correlated branches) is not
+    classified."""
+    R = "C20.R13"
+    with open(L.unit(F_HDR), "r", encoding="utf-8", errors="surrogateescape") as f:
+        hdr = blank_strings(strip_comments(f.read()))
+    H = HeaderIndex(L)
+    cf = CFile(L, F_RR)
+    rend = renderers_of(L, H, hdr, cf)
+    if not rend:
+        raise AnalysisError("no function of %s renders a hopping list through %s() for its callers" % (F_RR, FN))
+    callers = sorted({fi[0] for r in rend for (fi, pos, args) in cf.calls(r)} - set(rend))
+    nsites = ncons = 0
+    for fname in callers:
+        fm = slice_of(L, H, F_RR, fname, hdr)
+        a, b = L.stage(r13_function, L, R, cf, fm, fname, rend) or (0, 0)
+        nsites, ncons = nsites + a, ncons + b
+    L.floor(R, "render calls (list, length, channel description resolved) in the callers of %s" % " / ".join(sorted(rend)), nsites, 6)
+    L.floor(R, "calls that are handed a rendered hopping list together with a channel description", ncons, 4)
+
+
+def r13_function(L, R, cf, fm, fname, rend):
+    sites = []                  # (cfg node, call, description object, list local, length local)
+    for (n, c) in fm.calls:
+        sig = rend.get(_callee(c))
+        if sig is None:
+            continue
+        args = kids(c)[1:]
+        if len(args) <= max(sig["cd"], sig["buf"], sig["len"]):
+            raise AnalysisError("call of %s() in %s() with %d arguments" % (_callee(c), fname, len(args)))
+        buf = _ref_name(args[sig["buf"]])
+        la = strip(args[sig["len"]], casts=True)
+        ln = _ref_name(kids(la)[0]) if kind(la) == "UnaryOperator" and la.get("opcode") == "&" else None
+        for v, what in ((buf, "list"), (ln, "length")):
+            if v is None or v not in fm.locals or v in fm.dups:
+                raise AnalysisError("%s(): the %s argument of %s() is not a local of the function (`%s`)" % (
+                    fname, what, _callee(c), ctext(args[sig["buf" if what == "list" else "len"]])[:40]))
+        if "[" not in fm.locals[buf].get("type", {}).get("qualType", ""):
+            raise AnalysisError("%s(): the list `%s` rendered by %s() is not a local array" % (fname, buf, _callee(c)))
+        sites.append((n, c, desc_object(fm, args[sig["cd"]], n), buf, ln))
+    if not sites:
+        return 0, 0
+    bufs, lens = {s[3] for s in sites}, {s[4] for s in sites}
+    # every other mention of the list / the length is an argument of a call: a consumer
+    rcalls = {id(s[1]) for s in sites}
+    cons = {}
+    for v in sorted(bufs | lens):
+        for (un, x) in fm.uses.get(v, []):
+            p, call = x, None
+            while p is not None:
+                q = fm.tu.parent.get(id(p))
+                if q is not None and kind(q) == "CallExpr" and kids(q)[0] is not p:
+                    call = q
+                    break
+                p = q
+            if call is not None and id(call) in rcalls:
+                continue
+            par = fm.parent(x)
+            if v in lens:
+                if call is not None and par is not None and kind(par) == "UnaryOperator" and par.get("opcode") == "&":
+                    raise AnalysisError("%s(): the address of the length `%s` goes to %s(), which is not a renderer" % (fname, v, _callee(call)))
+                if call is None:
+                    continue            # read in a condition, or stored directly (a reaching definition, see r13_consumer)
+            elif call is None:
+                raise AnalysisError("%s(): the list `%s` is accessed outside a call (`%s`): lists put together by hand are not followed" % (
+                    fname, v, stmt_text(par if par is not None else x)[:50]))
+            cons.setdefault(id(call), (un, call, set()))[2].add(v)
+    ncons = 0
+    seen_keys = {}
+    for (n, c, used) in sorted(cons.values(), key=lambda t: (fm.line(t[1]) or 0)):
+        if not (used & bufs):
+            continue                    # only the length: no list is handed on
+        ncons += r13_consumer(L, R, cf, fm, fname, rend, sites, n, c, used, seen_keys)
+    return len(sites), ncons
+
+
+def r13_consumer(L, R, cf, fm, fname, rend, sites, n, c, used, seen_keys):
+    callee = _callee(c)
+    args = kids(c)[1:]
+    if callee is None or callee in COPY_FNS or callee in ("memset", "__builtin_memset", "bzero"):
+        raise AnalysisError("%s(): the rendered list is handed to `%s` (%s): not followed" % (fname, ctext(kids(c)[0])[:30], "a copy / fill"))
+    if any(s[0] is n for s in sites):
+        raise AnalysisError("%s(): a render call and %s() reading the list are parts of one statement" % (fname, callee))
+    # ---- the description(s) the consumer is given
+    cdtypes = {r["cdtype"] for r in rend.values()}
+    defs = [f for f in cf.funcs if f[0] == callee and len(split_args(f[1])) == len(args)]
+    given, how = set(), None
+    if len(defs) == 1:
+        for k, p in enumerate(split_args(defs[0][1])):
+            m = re.match(r"(.*?)(\w+)\s*$", p.strip(), re.S)
+            if m and _norm_type(m.group(1)) in cdtypes:
+                given.add(desc_object(fm, args[k], n))
+        how = "description parameter of %s()" % callee
+    if not given:
+        univ = {s[2] for s in sites}
+        for a in args:
+            if not any(_mentions(a, name=v) for v in used):
+                given |= arg_objects(fm, a) & univ
+        how = "members passed to %s()" % callee
+    if not given:
+        return 0                        # a list that travels without a description: nothing to pair
+    # ---- render calls that reach the consumer, per local
+    bad, via, unk = None, [], None
+    for v in sorted(used):
+        idx = 3 if any(s[3] == v for s in sites) else 4
+        at = {}
+        for s in sites:
+            if s[idx] == v:
+                at.setdefault(s[0].id, []).append(s)
+        wr = {w.node.id for w in fm.writes.get(v, [])}
+        seen, work = set(), [p for (p, _) in n.pred]
+        while work:
+            x = work.pop()
+            if x.id in seen:
+                continue
+            seen.add(x.id)
+            if x.id in at:
+                if len(at[x.id]) > 1:
+                    raise AnalysisError("%s(): two render calls into `%s` in one statement" % (fname, v))
+                via.append((v, at[x.id][0]))
+                continue
+            if x.id in wr:
+                unk = "`%s` is also stored directly (`%s`)" % (v, stmt_text(x.ast if x.ast is not None else x.cond)[:40])
+                continue
+            if x is fm.g.entry:
+                unk = "`%s` reaches %s() unrendered on some path" % (v, callee)
+                continue
+            work += [p for (p, _) in x.pred]
+    gl = fm.g.guard_lits(n)
+    for (v, s) in via:
+        if s[2] in given:
+            continue
+        same = [g for g in given if g[0] == s[2][0]]
+        prefix = [g for g in same if g[1][:len(s[2][1])] == s[2][1] or s[2][1][:len(g[1])] == g[1]]
+        if not same or prefix:
+            unk = unk or "`%s` rendered from `%s` may or may not be the description `%s` given to %s()" % (
+                v, fmt_obj(s[2]), " / ".join(sorted(fmt_obj(g) for g in given)), callee)
+            continue
+        if any((t, not p) in gl for (t, p) in fm.g.guard_lits(s[0])):
+            unk = unk or "the render call from `%s` and %s() stand under opposite branch conditions (correlation not followed)" % (fmt_obj(s[2]), callee)
+            continue
+        bad = bad or (v, s)
+    gtxt = " / ".join(sorted(fmt_obj(g) for g in given))
+    key = "%s() handed the list with channel description `%s` in %s()" % (callee, gtxt, fname)
+    seen_keys[key] = seen_keys.get(key, 0) + 1
+    if seen_keys[key] > 1:
+        key += " (#%d)" % seen_keys[key]
+    key += ": every render call that reaches it rendered that description (%s)" % how
+    if bad is None and unk is not None:
+        raise AnalysisError("%s(): %s" % (fname, unk))
+    srcs = sorted({fmt_obj(s[2]) for (_, s) in via})
+    L.ob(R, F_RR, fname, key, "list and length rendered from `%s`" % gtxt,
+         ("`%s` rendered from `%s`" % ("`, `".join(sorted(used)), "`, `".join(srcs))) if bad is None else
+         "`%s` holds the list rendered from `%s` (%s() call at line %s): the hopping list of another Mobile Allocation goes to L1 with `%s`" % (
+             bad[0], fmt_obj(bad[1][2]), _callee(bad[1][1]), fm.line(bad[1][1]), gtxt),
+         bad is None, fm.line(c))
+    return 1
+
+
 def _only_fills(fm, q, nm):
     """statement q only initialises the local array `nm` (memset / bzero / memcpy into it, element store): no alias is made"""
     a = strip(q.ast, casts=True) if q.kind == "stmt" and q.ast is not None else None
@@ -6422,3 +6751,4 @@ def run(L, tier):
     L.stage(decide, L, sl, pending, tier)
     L.stage(r11_lv_copies, L, tier)     # callers: the LV buffer the decoder reads holds the whole received bitmap
     L.stage(r12_result, L, sl, tier)    # callers: tests of the return value fit the results folded by C20.R8
+    L.stage(r13_pairing, L, tier)       # callers: the list handed to L1 was rendered from the description handed along
